@@ -28,11 +28,11 @@ def budget(tier):
 def strategy(tier):
     from bvt.props._scen import mixed
 
-    from bvt.props._scen import with_stop
+    from bvt.props._scen import with_stop, with_wal
 
     # a third of the cases come from the stop() sub-family (one in five of those actually stops a bus): there only the statement's
     # converse binds - once every handler result of the awaited tree is terminal the waiter must be released
-    return st.integers(0, 2).flatmap(lambda k: with_stop(scenario(P), 5) if k == 0 else mixed(scenario(P), tier, ID))
+    return st.integers(0, 2).flatmap(lambda k: with_stop(scenario(P), 5) if k == 0 else with_wal(mixed(scenario(P), tier, ID), 6))
 
 
 def _awaited(F):
